@@ -6,6 +6,8 @@
 // equality between a copy and its source at the time of copying.  Leaks are checked per scenario with LSan
 // (run with --batch 1), double frees / use after free are caught by ASan.
 #include "vh.h"
+#include <map>
+#include <typeinfo>
 #include <tins/tins.h>
 #include <tins/pdu_cacher.h>
 #include <tins/loopback.h>
@@ -44,10 +46,12 @@ template <> PDU* OpsOf<PDUCacher<UDP> >::make() { return new PDUCacher<UDP>(UDP(
 
 #define CLASSES(X) X(EthernetII) X(IP) X(TCP) X(UDP) X(RawPDU) X(IPv6) X(Dot1Q) X(ICMP) X(ICMPv6) X(ARP) X(DNS) X(SNAP) X(LLC) X(Dot3) X(SLL) X(Loopback) X(MPLS) X(VXLAN) X(RTP) X(PPPoE) X(BootP) X(DHCP) X(DHCPv6) X(STP) X(IPSecAH) X(IPSecESP) X(RC4EAPOL) X(RSNEAPOL) X(RadioTap) X(Dot11) X(Dot11Data) X(Dot11QoSData) X(Dot11Beacon) X(Dot11ProbeRequest) X(Dot11ProbeResponse) X(Dot11AssocRequest) X(Dot11AssocResponse) X(Dot11ReAssocRequest) X(Dot11ReAssocResponse) X(Dot11Authentication) X(Dot11Deauthentication) X(Dot11Disassoc) X(Dot11RTS) X(Dot11PSPoll) X(Dot11CFEnd) X(Dot11EndCFAck) X(Dot11Ack) X(Dot11BlockAckRequest) X(Dot11BlockAck) X(PDUCacher<IP>) X(PDUCacher<UDP>)
 static std::vector<Ops> TABLE;
+static std::map<std::string, size_t> BY_TYPEID;      // dynamic class of an object -> its row
 static void build_table() {
-#define ROW(K) TABLE.push_back(OpsOf<K >::get(#K));
+#define ROW(K) TABLE.push_back(OpsOf<K >::get(#K)); BY_TYPEID[typeid(K).name()] = TABLE.size() - 1;
     CLASSES(ROW)
 }
+static const Ops* ops_of(const PDU* p) { std::map<std::string, size_t>::const_iterator it = BY_TYPEID.find(typeid(*p).name()); return it == BY_TYPEID.end() ? 0 : &TABLE[it->second]; }
 
 // identity token stored in a field of the object (-1: this class offers no suitable scalar field)
 static long tag_get(const PDU* p) {
@@ -167,6 +171,11 @@ static void scenario(const vh::Json& sc, vh::Out& out, vh::Rng& rng, const vh::A
         try {
             if (op == "new") { const Ops* k = Wd.cmap[o["b"].num()]; Wd.slots[a] = k->make(); Wd.ops[a] = k; tag_set(Wd.slots[a], o["c"].num()); decorate(Wd.slots[a], rng); }
             else if (op == "clone") { Wd.slots[b] = Wd.slots[a]->clone(); Wd.ops[b] = Wd.ops[a]; ser_ok = ser(Wd.slots[a]) == ser(Wd.slots[b]); }
+            else if (op == "cloneinner") {      // a copy of the chain from the c-th layer downwards: alternately clone() and the copy constructor
+                PDU* node = Wd.slots[a]; for (long k = 1; k < o["c"].num() && node; ++k) node = node->inner_pdu();
+                const Ops* k = ops_of(node); if (!k) throw std::logic_error("driver: class of an inner layer not in the table");
+                Wd.slots[b] = (out.sid % 2) ? node->clone() : k->copy(node); Wd.ops[b] = k;
+                /* the serialisation of a layer depends on its parent (checksums, MPLS bottom-of-stack): source and copy are compared as chains */ }
             else if (op == "copyctor") { Wd.slots[b] = Wd.ops[a]->copy(Wd.slots[a]); Wd.ops[b] = Wd.ops[a]; ser_ok = ser(Wd.slots[a]) == ser(Wd.slots[b]); }
             else if (op == "copyassign") { PDU* node = Wd.slots[a]; for (long k = 1; k < o["c"].num(); ++k) node = node->inner_pdu();
                 const Ops* k = 0; for (int q = 0; q < 3 && !k; ++q) { PDU* t = Wd.cmap[q]->make(); if (typeid(*t) == typeid(*node)) k = Wd.cmap[q]; delete t; }
